@@ -170,6 +170,7 @@ End O14.
 
 Definition case_C14 := case_sync.
 Definition mismatch_C14 (c : case_C14) : bool := mismatch_case c.
-Definition violation_C14 (c : case_C14) : bool := negb (holds_C14 (cs_frepr c) (cs_case c)).
+(* "leaving that file untouched": a file that is not overwritten keeps its permission bits too (SyncObs.perm_row) *)
+Definition violation_C14 (c : case_C14) : bool := negb (holds_C14 (cs_frepr c) (cs_case c) && perm_frame_ok c).
 Definition mismatches_C14 (cs : list case_C14) : list N := indices_where mismatch_C14 cs.
 Definition violations_C14 (cs : list case_C14) : list N := indices_where violation_C14 cs.
